@@ -891,7 +891,13 @@ class VM:
                 if not isinstance(result, JSObject):
                     return result
             elif callable(method):
-                result = method()
+                from .values import JSBoundMethod
+
+                if isinstance(method, JSBoundMethod):
+                    # Built-in prototype methods take the receiver explicitly
+                    result = method(value)
+                else:
+                    result = method()
                 if not isinstance(result, JSObject):
                     return result
 
